@@ -298,8 +298,15 @@ def r8(c):
       needs=lambda P: P.has('rodbus::serial::frame::RtuParser::parse'))
 def r9(c):
     _c17.r5(c)
-    P = c.P
-    b = P.fn('rodbus::common::frame::FrameHeader::new_tcp_header')
-    ag = [s for _, s in b.aggregates('rodbus::common::frame::FrameDestination')]
-    ok = len(ag) == 1 and ag[0]['rv']['variant'] == 'UnitId' and q.is_name(b, ag[0]['rv']['a'][0], 'unit_id')
-    c.ob('new_tcp_header', ok, 'new_tcp_header always builds FrameDestination::UnitId(unit_id)', str([a['rv']['variant'] for a in ag]), loc_of(b))
+
+
+@rule('C02', 'R02.10', 'the bytes a request is decoded from are the bytes received: receive-buffer discipline (C05/R05.6)')
+def r10(c):
+    from rules import c05
+    c05.r6(c)
+
+
+@rule('C02', 'R02.11', 'where authorization is configured, the request is submitted to the callback of its own kind (C08/R08.3)')
+def r11(c):
+    from rules import c08
+    c08.r3(c)
